@@ -56,6 +56,10 @@ func genWorkConservation(seed int64, index int, tier string) *spec.Case {
 	}
 	c := gen.GenerateWith(k, name, seed, index, tier)
 	c.Faults = spec.Faults{}
+	if (index/16)%4 == 3 {
+		// a quarter of the cases: BindRequest creation fails now and then (the workloads hit are not judged)
+		c.Faults = spec.Faults{PBindRequestCreateFails: 0.3}
+	}
 	c.Config.QueueDepth = nil // queue depth unlimited (quantifier of the property)
 	c.Meta["c05kind"] = "wc"
 	return c
@@ -597,12 +601,17 @@ type Witness struct {
 
 func checkWorkConservation(m *oracle.Model, events []sched.Event, cycle int, diag *sessionDiag, st *oracle.Stats) ([]run.Violation, []any) {
 	ranAllocate := false
+	// a workload one of whose binds failed (API error) legitimately stays pending: it is not judged, the others are -
+	// the capacity the failed bind would have used is free again (the residual model counts successful binds only)
+	failedGroups := map[string]bool{}
 	for i := range events {
 		e := &events[i]
 		if e.Action == "allocate" && e.Err != "" {
-			st.Inc("wc_cycles_skipped_failed_call")
-			return nil, nil
+			failedGroups[e.Group] = true
 		}
+	}
+	if len(failedGroups) > 0 {
+		st.Inc("wc_cycles_with_failed_bind_judged")
 	}
 	for _, a := range splitActions(m.Cfg.Actions) {
 		if a == "allocate" {
@@ -665,6 +674,10 @@ func checkWorkConservation(m *oracle.Model, events []sched.Event, cycle int, dia
 			}
 		}
 		if nPending == 0 {
+			continue
+		}
+		if failedGroups[name] {
+			skip("own-bind-failed")
 			continue
 		}
 		st.Inc("wc_workloads_with_pending_pods")
